@@ -37,7 +37,30 @@ pub fn show_config(config: &config::Config, writer: &mut dyn Write) -> std::io::
             .join(" "),
         commit_style = config.commit_style.to_painted_string(),
         file_style = config.file_style.to_painted_string(),
-        hunk_header_style = config.hunk_header_style.to_painted_string(),
+        hunk_header_style = {
+            // The words that say what the hunk header shows belong to the value of the option.
+            let mut words = Vec::new();
+            if matches!(
+                config.hunk_header_style_include_file_path,
+                config::HunkHeaderIncludeFilePath::Yes
+            ) {
+                words.push("file".to_string());
+            }
+            if matches!(
+                config.hunk_header_style_include_line_number,
+                config::HunkHeaderIncludeLineNumber::Yes
+            ) {
+                words.push("line-number".to_string());
+            }
+            if matches!(
+                config.hunk_header_style_include_code_fragment,
+                config::HunkHeaderIncludeCodeFragment::No
+            ) {
+                words.push("omit-code-fragment".to_string());
+            }
+            words.push(config.hunk_header_style.to_string());
+            config.hunk_header_style.paint(words.join(" "))
+        },
         minus_emph_style = config.minus_emph_style.to_painted_string(),
         minus_empty_line_marker_style = config.minus_empty_line_marker_style.to_painted_string(),
         minus_non_emph_style = config.minus_non_emph_style.to_painted_string(),
